@@ -4,13 +4,14 @@
   * `decset_*` / `decrst_*` : each of the nine DEC private modes and ESC = / ESC >
     changes exactly its component (the result is stated as a whole-record
     equality, so "nothing else changes" is part of the statement).
-  * `decrst_mouse_other` : resetting a mouse mode/encoding other than the active one
-    has no effect.
-  * `modes_apply_in_order` : several modes in one sequence apply left to right.
+  * resetting a mouse mode/encoding other than the active one has no effect: the `decrst_*` equalities here and
+    `rstEff` / `clrMode` / `clrEnc` in C11more_c10.
+  * several modes in one sequence apply left to right: `decset_cons` / `decrst_cons` (handled heads),
+    `decset_cons_unhandled` / `decrst_cons_unhandled` and `perform_modes` (C11more_c10).
   * `input_mode_formatted_roundtrip` / `input_mode_diff_roundtrip` : replaying the
     mode changes the emitters write reproduces the five input modes
     (at the level of the actions; the bytes of these fixed sequences are parsed
-    by the vte model in `Vt.C10.bytes_*`, closed terms checked by `decide`).
+    by the vte model in C10b: `tok_act`, `process_input_mode_formatted`, `process_input_mode_diff`).
   * `input_mode_diff_empty_iff`.
 -/
 import Vt.Model.Perform
